@@ -133,7 +133,7 @@ structure Simulation (a : Args) (r : Rule) (N : Nat) (Good : Nat → State → P
   results : ∀ k st, k < N → Good k st → ∃ fl, periodResults r st = .ok (Spec.RRule.sel a (k : Int), none, fl)
   next : ∀ k st fl c, k + 1 < N → Good k st →
     ∃ st', advance r { st with count := c } fl = .ok st' ∧ Good (k + 1) st'
-  bounded : ∀ k, k < N → ∀ x ∈ Spec.RRule.sel a (k : Int), 0 ≤ x.ord ∧ x.ord ≤ Cal.maxOrdinal
+  bounded : ∀ k st, k < N → Good k st → ∀ x ∈ Spec.RRule.sel a (k : Int), 0 ≤ x.ord ∧ x.ord ≤ Cal.maxOrdinal
 
 theorem run_refines {a : Args} {r : Rule} {N : Nat} {Good : Nat → State → Prop}
     (sim : Simulation a r N Good) : ∀ (n k : Nat) (st : State) (c : Cut),
@@ -145,7 +145,7 @@ theorem run_refines {a : Args} {r : Rule} {N : Nat} {Good : Nat → State → Pr
   | succ n ih =>
     intro k st c hg hk hc hcnt
     obtain ⟨fl, hres⟩ := sim.results k st (by omega) hg
-    have pa := emit_push a r sim.agree Cal.maxOrdinal (Spec.RRule.sel a (k : Int)) c hc (sim.bounded k (by omega))
+    have pa := emit_push a r sim.agree Cal.maxOrdinal (Spec.RRule.sel a (k : Int)) c hc (sim.bounded k st (by omega) hg)
     rw [← hcnt] at pa
     unfold specFrom
     rw [List.range'_succ, List.foldl_cons]
